@@ -22,12 +22,133 @@ TASKS = [
     LemmaTask("amplitude-scaling", pos, psd([k * k * P1, k * k * P2]) == k * k * psd([P1, P2]), "x -> k x scales |X|^2 and hence the density by k^2 (A-FFT-LIN)"),
 ]
 
+# ---------------------------------------------------------------------------------------------------------------------
+# _rpds_single_component under contract: accumulation over the windows and the Welch scaling chain.  window / rfft / conjugate / real are
+# uninterpreted (the spectrum of a window is an opaque array of the window), the taper's mean square is the function's own local.
+from pyvc.core import I, R, FuncV, ModV, DictV, StrV, Tup, ArrData, NONE, real as real_
+from pyvc.contract import Contract, FunctionTask, sym_obj
+from pyvc import objects, npmodel as npm
+from pyvc.objects import new_symlist
+
+AR = z3.ArraySort(I, R)
+L = z3.Int("n_windows")
+TS = z3.Const("timeseries_ids", z3.ArraySort(I, I))
+NFFT, NS0 = z3.Ints("n_fft n_samples")
+DT0, WIDTH = z3.Reals("dt width")
+TSAMP = objects.arr_term("TimeSeries", "amplitude")
+TSLEN = objects.fld("TimeSeries", "amplitude_len", I)
+TSDT = objects.fld("TimeSeries", "dt_in_seconds", R)
+WIN = z3.Function("WIN", AR, I, R, AR)
+RFFT = z3.Function("RFFT", AR, I, I, AR)
+CONJ = z3.Function("CONJ", AR, AR)
+REALP = z3.Function("REALP", R, R)
+ONES = z3.Const("ones", AR)
+PSUM = z3.Function("PSUM", I, I, R)          # PSUM(k, c) = sum over the first k windows of the power of bin c
+
+
+def SPEC(tsid):
+    return RFFT(WIN(TSAMP(tsid), TSLEN(tsid), WIDTH), TSLEN(tsid), NFFT)
+
+
+def PW(tsid, c):
+    return REALP(z3.Select(CONJ(SPEC(tsid)), c) * z3.Select(SPEC(tsid), c))
+
+
+_k, _c = z3.Ints("k!p c!p")
+AX_PSD = [z3.ForAll([_c], PSUM(0, _c) == 0, patterns=[PSUM(0, _c)]),
+          z3.ForAll([_k, _c], z3.Implies(_k >= 0, PSUM(_k + 1, _c) == PSUM(_k, _c) + PW(z3.Select(TS, _k), _c)), patterns=[PSUM(_k + 1, _c)])]
+
+
+def _m_from_timeseries(ex, st, args, kw, node):
+    ts = args[0]
+    amp = ex.alloc_arr(st, (TSLEN(ts.id),), TSAMP(ts.id), "real", "fresh", tag="copy")
+    return ex.alloc_obj(st, "TimeSeries", {"amplitude": amp, "dt_in_seconds": TSDT(ts.id)}, "fresh")
+
+
+def _m_ctor(ex, st, args, kw, node):
+    a = ex.arr(st, kw["amplitude"] if "amplitude" in kw else args[0])
+    return ex.alloc_obj(st, "TimeSeries", {"amplitude": ex.alloc_arr(st, a.shape, a.data, "real", "fresh", tag="copy"),
+                                          "dt_in_seconds": kw["dt_in_seconds"] if "dt_in_seconds" in kw else args[1]}, "fresh")
+
+
+def _m_window(ex, st, args, kw, node):
+    ref = st.heap[args[0].oid].fields["amplitude"]
+    d = st.heap[ref.sid]
+    st.heap[ref.sid] = ArrData(d.shape, WIN(d.data, d.shape[0], z3.simplify(real_(args[2]))), d.elem, d.owner, d.view_of)
+    return NONE
+
+
+def _m_rfft(ex, st, args, kw, node):
+    d = ex.arr(st, args[0])
+    return ex.alloc_arr(st, (kw["n"] / 2 + 1,), RFFT(d.data, d.shape[0], kw["n"]), "real", "fresh", tag="rfft")
+
+
+def _m_conj(ex, st, args, kw, node):
+    d = ex.arr(st, args[0])
+    return ex.alloc_arr(st, d.shape, CONJ(d.data), "real", "fresh", tag="conj")
+
+
+def _m_real(ex, st, args, kw, node):
+    return ex.map1(st, args[0], lambda x: REALP(x), "real")
+
+
+def _m_ones_like(ex, st, args, kw, node):
+    return ex.alloc_arr(st, ex.arr(st, args[0]).shape, ONES, "real", "fresh", tag="ones")
+
+
+def _m_mean(ex, st, args, kw, node):
+    r = ex.fresh("taper_mean_square", R)
+    st.pc.append(r > 0)          # assumption: the taper is not identically zero
+    return r
+
+
+_NP = ModV("np", dict(npm.NP.attrs, conjugate=FuncV(_m_conj, "np.conjugate"), real=FuncV(_m_real, "np.real"), ones_like=FuncV(_m_ones_like, "np.ones_like"),
+                      mean=FuncV(_m_mean, "np.mean")))
+
+
+def _rpds_inputs(ex, st):
+    st.env["timeseries"] = new_symlist(ex, st, "TimeSeries", length=L, arr=TS, owner="param:timeseries", name="timeseries")
+    st.env["settings"] = sym_obj(ex, st, "Settings", {"fft_settings": DictV({"n": NFFT}), "window_type_and_width": Tup((StrV("tukey"), WIDTH))}, owner="param:settings")
+    st.env["L"], st.env["NFFT"], st.env["NS0"], st.env["DT0"] = L, NFFT, NS0, DT0
+    k = z3.Int("k!in")
+    return [L >= 1, NFFT >= 2, NFFT % 2 == 0, NS0 >= 1, DT0 > 0,
+            z3.ForAll([k], z3.And(TSLEN(z3.Select(TS, k)) == NS0, TSDT(z3.Select(TS, k)) == DT0), patterns=[z3.Select(TS, k)])]
+
+
+def _tseries_havoc(ex, st, v):
+    amp = ex.alloc_arr(st, (ex.fresh("len", I),), ex.fresh("samples", AR), "real", "fresh", tag="copy")
+    return ex.alloc_obj(st, "TimeSeries", {"amplitude": amp, "dt_in_seconds": ex.fresh("dt", R)}, "fresh")
+
+
+RPDS = Contract(
+    qual="hvsrpy.processing._rpds_single_component", params=["timeseries", "settings"], axioms=AX_PSD,
+    ghost={"PSUM": PSUM}, make_inputs=_rpds_inputs, obj_havoc={"tseries": _tseries_havoc}, stable_shapes=("psd",),
+    requires=[],
+    ensures=["len(result) == NFFT / 2 + 1",
+             "forall(c, 0, NFFT / 2 + 1, result[c] == ((((PSUM(L, c) / window_scaling_factor) / NS0) / (1 / DT0)) * 2) / L)"],
+    loops={0: ["forall(c, 0, NFFT / 2 + 1, psd[c] == PSUM(_k0, c))",
+               "_k0 == 0 or (tseries.n_samples == NS0 and tseries.dt_in_seconds == DT0)"]},
+    modifies=[], notes="sum over the windows of |X_w[c]|^2, divided by the taper's mean square, the number of samples, the sampling rate and the number of "
+                       "windows, times two (one-sided); equal window lengths and steps and an even FFT length are preconditions")
+RPDS.array_fields_as_terms = True
+RPDS.loop_born = {"tseries": _tseries_havoc}
+TASKS.append(FunctionTask(RPDS, module_env={"np": _NP, "rfft": FuncV(_m_rfft, "rfft"),
+                                            "TimeSeries": FuncV(_m_ctor, "TimeSeries", attrs={"from_timeseries": FuncV(_m_from_timeseries, "from_timeseries")})},
+                          registry={"TimeSeries.window": FuncV(_m_window, "TimeSeries.window")},
+                          clauses=["Welch accumulation and scaling chain"]))
+S_, W_, n_, f_, l_ = z3.Reals("S W n f l")
+TASKS.append(LemmaTask("scaling-chain-closed-form", [W_ > 0, n_ > 0, f_ > 0, l_ > 0], ((((S_ / W_) / n_) / f_) * 2) / l_ == 2 * S_ / (W_ * n_ * f_ * l_),
+                       "the chain of in-place scalings equals 2 S / (mw2 N fs W) - the PSD spec of the lemmas above"))
+
 META = dict(
     level="other",
-    explanation="proved: Welch-averaging and amplitude-scaling lemmas over the PSD spec; bounded: _rpds_single_component against the Welch-normalised "
+    explanation="proved: _rpds_single_component's accumulation over the windows and its scaling chain (window / rfft / conjugate / real opaque, taper mean "
+                "square = the function's local), closed form of the chain, Welch-averaging and amplitude-scaling lemmas over the PSD spec; bounded: _rpds_single_component against the Welch-normalised "
                 "periodogram incl. Parseval on the bins strictly between 0 Hz and Nyquist, rpsd per component with smoothing on/off, diffuse field == "
                 "sqrt(S(Pns+Pew)/S(Pvt)) of the retained windows, psd_preprocess against the documented step sequence with the spectral derivative and a "
                 "flat response",
     trusted_base=["A-REAL", "numpy rfft/irfft, scipy tukey/butter/sosfiltfilt/detrend/freqs (external)", "PyVC engine + z3/cvc5 for the lemmas"],
-    assumptions=["A-REAL", "A-FFT", "A-PARSEVAL (checked numerically)", "A-TUKEY", "A-FREQS"],
+    assumptions=["A-REAL", "A-FFT", "A-PARSEVAL (checked numerically)", "A-TUKEY", "A-FREQS",
+                 "_rpds_single_component: equal window lengths and time steps, even FFT length (np.zeros(n/2) with odd n is a TypeError in the real code), "
+                 "taper not identically zero; real(conj(z) z) modelled as an uninterpreted function of a real product"],
 )
